@@ -30,7 +30,7 @@ def gen_scalar(rng):
     return rng.choice(WORDS)
 
 
-def gen_set(rng):
+def gen_set(rng, keygen=None):
     kind = rng.random()
     n = rng.randrange(0, 4)
     if kind < 0.5:
@@ -38,6 +38,15 @@ def gen_set(rng):
     else:
         xs = sorted(set(rng.choice(['p', 'q', 'rr', 'x y', 'café']) for _ in range(n)),
                     key=lambda s: s.encode())
+    if keygen is not None and xs and isinstance(xs[0], str):
+        # members that are format strings (referencing plain scalars, so the result stays hashable)
+        def member(m):
+            for _ in range(4):
+                y = keygen(rng, m)
+                if isinstance(y, str) and y != m:
+                    return y
+            return m
+        xs = sorted(set(member(m) for m in xs), key=lambda s: s.encode())
     return {'s': xs}
 
 
@@ -57,7 +66,7 @@ def gen_tree(rng, depth, leaf, keygen=None):
         return {'d': [[k, gen_tree(rng, depth - 1, leaf, keygen)] for k in keys]}
     if r < 0.95:
         return {'t': [gen_tree(rng, depth - 1, leaf, keygen) for _ in range(n)]}
-    return gen_set(rng)
+    return gen_set(rng, keygen)
 
 
 def formattable_keygen(avail, ctxmap):
